@@ -98,6 +98,9 @@ structure St where
   g : G := {}
   c : Case := {}
   exitReason : String := "-"      -- model-side: reason of the receiver's exit
+  /-- model and implementation already disagreed in this case: the rest of the case is not
+  compared any more (one DIFF per case), the oracle still judges the implementation -/
+  diverged : Bool := false
   deriving Inhabited
 
 instance : Inhabited Case := ⟨{}⟩
@@ -151,14 +154,14 @@ def oracleEnd (c : Case) (word : Word) (handled : List Nat) (sup : List String) 
 
 /-! ### replay -/
 
-def step (st : St) (op impl : String) : St × StepOut :=
+def step1 (st : St) (op impl : String) : St × StepOut :=
   let c := { st.c with line := st.c.line + 1 }
   let st := { st with c := c }
   match words op with
   | ["case", progs] =>
     let g := init (parseProgs progs)
     let ats := ",".intercalate ((List.range g.threads.length).map (threadAt g))
-    ({ g := g, c := { line := 0 }, exitReason := "-" }, { model := s!"ok at={ats}" })
+    ({ g := g, c := { line := 0 }, exitReason := "-", diverged := false }, { model := s!"ok at={ats}" })
   | "step" :: tid :: point :: opt =>
     match tid.toNat? with
     | none => (st, { model := "bad-op" })
@@ -240,6 +243,12 @@ def step (st : St) (op impl : String) : St × StepOut :=
       | _ => ["unparsable"]
     (st, { model := model, oracle := orc, nontrivial := st.c.raced || st.c.otherExit })
   | _ => (st, { model := "bad-op" })
+
+def step (st : St) (op impl : String) : St × StepOut :=
+  let (st', out) := step1 st op impl
+  if st.diverged && !(op.startsWith "case ") then (st', { out with model := impl })
+  else if out.model != impl then ({ st' with diverged := true }, out)
+  else (st', out)
 
 def run (ops impl : Array String) : IO Tally :=
   replay ({} : St) step ops impl
